@@ -52,7 +52,7 @@ func c07Gen(seed uint64, tier string) any {
 		sc.Limits = []int64{int64(r.Range(1, 200)), 30000}
 	case 2, 3:
 		sc.Mode = "capacity"
-		sc.Family = Pick(r, []string{"sum", "blocks", "holes", "range", "concat", "repeat", "calls", "parens", "array", "stack", "dictlit", "fstrdeep"})
+		sc.Family = Pick(r, []string{"sum", "fsum", "csum", "stsum", "fblocks", "blocks", "holes", "range", "concat", "repeat", "calls", "parens", "array", "stack", "dictlit", "fstrdeep"})
 		sc.N = capacityN(r, sc.Family)
 		sc.Cfg = CfgSpec{Seeded: true, SeedA: 1, SeedB: 2}
 	case 4:
@@ -92,9 +92,9 @@ func capacityN(r *Rng, fam string) int {
 		}
 	}
 	switch fam {
-	case "sum":
+	case "sum", "fsum", "csum", "stsum":
 		return pick(4096)
-	case "blocks", "holes", "fstrdeep":
+	case "blocks", "holes", "fstrdeep", "fblocks":
 		return pick(20)
 	case "range", "concat", "repeat", "array":
 		return pick(512)
@@ -118,6 +118,14 @@ func capacityProgram(fam string, n int) (src string, want string) {
 	switch fam {
 	case "sum": // n terms
 		return "1" + strings.Repeat("+1", n-1), "i" + strconv.Itoa(n)
+	case "fsum": // the same sum as the body of a function: nested code buffers have the same cap
+		return "func big() { return 1" + strings.Repeat("+1", n-1) + " }; big()", "i" + strconv.Itoa(n)
+	case "csum": // ... as the body of a computed value
+		return "&big = 1" + strings.Repeat("+1", n-1) + "; big", "i" + strconv.Itoa(n)
+	case "stsum": // ... as an st computed attribute, read back through the callback value
+		return "&v = (1" + strings.Repeat("+1", n-1) + "); v + 0", "i" + strconv.Itoa(n)
+	case "fblocks": // n nested blocks inside a function body
+		return "func nb() { " + strings.Repeat("if 1 { ", n) + "x = 7" + strings.Repeat(" }", n) + "; return x }; nb()", "i7"
 	case "blocks": // n nested if blocks
 		return strings.Repeat("if 1 { ", n) + "x = 7" + strings.Repeat(" }", n) + "; x", "i7"
 	case "holes": // one template with n holes
